@@ -565,7 +565,8 @@ def run(prog, tier):
     import p_c11
     t11 = p_c11.run(prog, 'quick')
     for o in t11.obs:
-        if o['rule'] == 'trimmed-name' or (o['rule'] == 'index-by-name' and ('pointIdx' in o.get('function', '') or 'channelIdx' in o.get('function', ''))):
+        if o['rule'] == 'trimmed-name' or (o['rule'] == 'index-by-name' and ('pointIdx' in o.get('function', '') or 'channelIdx' in o.get('function', ''))) or \
+                (o['rule'] == 'name-index' and ('Points::' in o.get('function', '') or 'SubFrame::' in o.get('function', ''))):
             res.obs.append(dict(o, rule='name-match/' + o['rule']))
     # a positional look-up inside the guard prefix that the guards before it do not cover throws std::out_of_range
     # instead of the documented class (or refuses a valid call)
